@@ -193,16 +193,27 @@ impl Pool {
     /// canonical corpus (read from the working tree at run time) + hand-written
     /// inputs + inputs generated from fixed seeds (independent of VERIF_SEED, so
     /// the same (configuration, input) pairs recur across runs and processes)
+    /// The pool never calls the library in a worker process: whatever the library builds lazily on
+    /// first use must be first touched by the scenario under test, not by the harness (a probe
+    /// with a bundled parser at start-up once made every process initialise first-use state the
+    /// same way and hid a seeded change that depends on which converter is used first). Whether
+    /// the large inputs produce an output is decided ONCE per check run by a separate process
+    /// (`cooksim probe-pool`, started by check.py) that writes the chosen texts to a file named by
+    /// $COOKSIM_POOL; without that file the first candidates are taken unchecked.
     pub fn load(repo: &str) -> Pool {
-        // (the pool asks the library whether its large inputs produce an output: in the shadow
-        // build every call into the library has to happen inside an execution)
-        let repo = repo.to_string();
-        crate::c18::in_shuttle(move || Pool::load_inner(&repo))
+        let big = std::env::var("COOKSIM_POOL").ok().and_then(|p| std::fs::read_to_string(p).ok()).and_then(|t| serde_json::from_str::<BigInputs>(&t).ok());
+        Pool::assemble(repo, big.unwrap_or_else(|| BigInputs::generate(&|_| true)))
     }
 
-    fn load_inner(repo: &str) -> Pool {
-        let probe = cooklang::CooklangParser::new(cooklang::Extensions::all(), cooklang::Converter::bundled());
-        let has_output = |text: &str| std::panic::catch_unwind(std::panic::AssertUnwindSafe(|| probe.parse(text).has_output())).unwrap_or(false);
+    /// for `cooksim probe-pool`: the large inputs chosen with the library's help
+    pub fn probe_big_inputs() -> BigInputs {
+        crate::c18::in_shuttle(|| {
+            let probe = cooklang::CooklangParser::new(cooklang::Extensions::all(), cooklang::Converter::bundled());
+            BigInputs::generate(&|text: &str| std::panic::catch_unwind(std::panic::AssertUnwindSafe(|| probe.parse(text).has_output())).unwrap_or(false))
+        })
+    }
+
+    fn assemble(repo: &str, big: BigInputs) -> Pool {
         let mut inputs: Vec<String> = Vec::new();
         let path = format!("{repo}/tests/canonical.yaml");
         if let Ok(text) = std::fs::read_to_string(&path) {
@@ -223,21 +234,36 @@ impl Pool {
             let mut r = Rng::new(mix2(0xF00D_F00D, i));
             inputs.push(gen::recipe(&mut r));
         }
+        inputs.extend(big.large);
+        Pool { inputs, xl: big.xl, xl_den: 1500, max_threads: 4 }
+    }
+}
+
+/// The six large recipes of the pool and the one very long recipe (> 64 KiB of step text: size
+/// thresholds and time budgets; kept apart from the pool because it is expensive, drawn for 1
+/// input in 1 500). They must produce an output - one hard parser error anywhere and the analysis
+/// of the whole text is skipped: candidates are generated from successive seeds until
+/// `has_output` accepts one.
+#[derive(Serialize, Deserialize)]
+pub struct BigInputs {
+    pub large: Vec<String>,
+    pub xl: String,
+}
+
+impl BigInputs {
+    pub fn generate(has_output: &dyn Fn(&str) -> bool) -> BigInputs {
+        let mut large = Vec::new();
         for i in 0..6u64 {
             for attempt in 0..20u64 {
                 let mut r = Rng::new(mix2(0xB16B_16 + attempt * 1000, i));
                 let t = gen::recipe_large(&mut r);
                 if has_output(&t) || attempt == 19 {
-                    inputs.push(t);
+                    large.push(t);
                     break;
                 }
             }
         }
-        // one very long recipe (> 64 KiB of step text): size thresholds and time budgets. Kept
-        // apart from the pool: it is expensive, so it is drawn rarely (1 input in 1 500)
-        // (it must produce an output - one hard parser error anywhere and the analysis of the whole
-        // text is skipped; checked with the library, next seed otherwise)
-        let mut xl_input = None;
+        let mut xl_input = String::new();
         for attempt in 0..40u64 {
             let mut r = Rng::new(0x00E1_7A11 + attempt);
             let mut xl = String::new();
@@ -248,11 +274,11 @@ impl Pool {
                 }
             }
             if has_output(&xl) || attempt == 39 {
-                xl_input = Some(xl);
+                xl_input = xl;
                 break;
             }
         }
-        Pool { inputs, xl: xl_input.unwrap_or_default(), xl_den: 1500, max_threads: 4 }
+        BigInputs { large, xl: xl_input }
     }
 }
 
